@@ -1,20 +1,30 @@
-# Per-property run specifications for the ./check driver.
-# Each run: pkg (repo package dir; harness files in /verif/inpkg/<pkg>/cNN_*.go + common*.go),
-# tests (go -test.run regexp), mode rapid|plain|fuzz, quick/thorough specs
-# (checks, shards, timeout [s], mem_gb, steps, env), race.
+"""Loads per-property run specifications from /verif/config/C*.json.
 
+Each file: {
+  "technique": str, "level_text": str, "level_note": str (optional), "assumptions": [str],
+  "runs": [ {
+     "pkg": repo package dir (harness files: /verif/inpkg/<pkg>/cNN_*.go + common*.go;
+            for mode "fuzz": directory under /verif/fuzz/),
+     "name": label (unique per run within the property),
+     "tests": go -test.run regexp (top-level test names, no '-' in names),
+     "mode": "rapid" | "plain" | "fuzz",
+     "race": bool, "thorough_only": bool, "env": {..},
+     "files_for": ["C10","C18"]  (optional: also compile other properties' cNN_ files),
+     "quick":    {"checks": N, "shards": K, "timeout": s, "mem_gb": g, "steps": n, "gomaxprocs": n, "env": {..}},
+     "thorough": {... same keys; for fuzz: "fuzztime": "120s", "workers": 16}
+  } ]
+}
+"""
+import glob, json, os
+
+_V = os.path.dirname(os.path.abspath(__file__))
 PROPS = {}
-NOT_APPLICABLE = {}
+for _f in sorted(glob.glob(os.path.join(_V, "config", "C*.json"))):
+    PROPS[os.path.basename(_f)[:-5]] = json.load(open(_f))
 
-PROPS["C15"] = dict(
-    technique="rapid property test + (thorough: exhaustive) structured enumeration against a bit-string reference model",
-    level_text="Generated-input search: every clause of the statement (containment, equality, common supernet, base address, host-bit validity, bit-at-position, ordering, print/parse round trip) is compared with an independent bit-string model on random related prefix pairs and on the structured domain (3 bases x all length pairs x every single-bit flip), which the thorough tier enumerates completely. Exploration, not proof: random addresses outside the structured domain are sampled.",
-    assumptions=["Contains is strict containment (callers test Equal separately)",
-                 "GetSupernet judged only for incomparable canonical pairs (the trie's precondition)",
-                 "IP.Compare judged within one address family"],
-    runs=[
-        dict(pkg="net", name="random", tests="^TestVerifC15Random$", mode="rapid",
-             quick=dict(checks=60000), thorough=dict(checks=400000, shards=16)),
-        dict(pkg="net", name="structured", tests="^TestVerifC15Structured$", mode="plain",
-             quick=dict(shards=4), thorough=dict(shards=16)),
-    ])
+# Properties that are deliberately not claimed, with the reason (everything else
+# that has no config yet is reported as "not built yet").
+NOT_APPLICABLE = {}
+_na = os.path.join(_V, "config", "not_applicable.json")
+if os.path.exists(_na):
+    NOT_APPLICABLE = json.load(open(_na))
